@@ -26,7 +26,16 @@ struct Gaps {
 
 /// Sends `m1` (answered by `reply` if it expects one) and then a Goodbye on the same bus.
 fn measure(m1: &RefMsg, reply: &RefMsg) -> Result<Gaps, String> {
+    measure_with_flush_fault(m1, reply, None)
+}
+
+/// `flush_fault`: the port's first flush() call (if the bus makes one) fails with this kind. The first message may
+/// then return an error — the pacing of what reaches the wire afterwards must hold regardless.
+fn measure_with_flush_fault(m1: &RefMsg, reply: &RefMsg, flush_fault: Option<std::io::ErrorKind>) -> Result<Gaps, String> {
     let st = doubles::shared(doubles::WEIRD_SETTINGS);
+    if let Some(k) = flush_fault {
+        st.borrow_mut().flush_faults = vec![(0, k)];
+    }
     let mut tape = refs::wire(reply);
     tape.extend_from_slice(SENTINEL);
     let port = InstrPort::scripted(st.clone(), FragReader::plain(tape), FragWriter::new(vec![], WriteAct::Accept(usize::MAX)));
@@ -40,7 +49,9 @@ fn measure(m1: &RefMsg, reply: &RefMsg) -> Result<Gaps, String> {
         (a, b, t_ret, n1)
     });
     let (a, b, t_ret, n1) = r.map_err(|p| format!("panic {}", p.msg))?;
-    a?;
+    if flush_fault.is_none() {
+        a?;
+    }
     b?;
     let log = st.borrow().log.clone();
     let first = &log[n0..n1];
@@ -156,6 +167,27 @@ fn paced_trials(cell: &Cell, trials: usize, rep: &mut Report) {
     }
 }
 
+/// A data chunk that is completely written, after which the port's flush fails (interrupted drain, I/O error): whatever
+/// the first call returns, the next message must still not reach the wire for 30 ms. (The unchanged bus never flushes,
+/// so for it this is an ordinary paced exchange.)
+fn flush_fault_trials(trials: usize, rep: &mut Report) {
+    let cell = Cell { name: "send/SendData[16] then the port's flush fails".into(), m1: RefMsg::Data { offset: 0, data: vec![0x5A; 16] }, reply: RefMsg::Report(3, S_UNCONF), send_paced: true, recv_paced: false };
+    for kind in [std::io::ErrorKind::Interrupted, std::io::ErrorKind::Other, std::io::ErrorKind::TimedOut] {
+        for _ in 0..trials.min(4) {
+            rep.case(Some(fnv(format!("flush{:?}", kind).as_bytes())));
+            rep.count("flush_fault_trials");
+            match measure_with_flush_fault(&cell.m1, &cell.reply, Some(kind)) {
+                Ok(g) => {
+                    if g.send_gap < SEND_PACE {
+                        violation(rep, "data_chunk_not_paced_after_flush_failure", &cell, format!("flush failed with {:?}; the next message was written {:.3} ms after the data chunk (< 30 ms)", kind, ms(g.send_gap)));
+                    }
+                }
+                Err(e) => rep.note(&format!("measure_error/flush/{:?}", kind), J::s(e)),
+            }
+        }
+    }
+}
+
 /// "Not delayed": the MINIMUM over repeated trials must stay below the smaller pacing value.
 fn unpaced_trials(cell: &Cell, rep: &mut Report) {
     let mut min_send = Duration::MAX;
@@ -226,6 +258,7 @@ pub fn run(ctx: &Ctx) -> Outcome {
     let mut report = run_sharded_on(paced.len(), paced.len(), |i, rep| paced_trials(&paced[i], trials, rep));
     // phase 2: everything single-threaded for the "not delayed" direction
     let mut rep2 = Report::new();
+    flush_fault_trials(trials, &mut rep2);
     for c in &all {
         unpaced_trials(c, &mut rep2);
         rep2.sample_always(J::obj(vec![("cell", J::s(c.name.clone())), ("message", J::s(c.m1.show())), ("reply", J::s(c.reply.show()))]));
@@ -235,6 +268,7 @@ pub fn run(ctx: &Ctx) -> Outcome {
     let floors = vec![
         floor("paced send trials (data chunks of 4 lengths)", report.get("paced_send_trials") >= 4 * trials as u64, report.get("paced_send_trials")),
         floor("paced receive trials (8 request kinds x 2 in-progress states x own/foreign)", report.get("paced_recv_trials") >= 32 * trials as u64, report.get("paced_recv_trials")),
+        floor("data chunk followed by a failing flush (3 error kinds)", report.get("flush_fault_trials") >= 9, report.get("flush_fault_trials")),
         floor("every unpaced cell measured", report.get("unpaced_send_cells") == n_send_unpaced, report.get("unpaced_send_cells")),
         floor("no measurement errors", !report.notes.keys().any(|k| k.starts_with("measure_error/")), "see notes"),
     ];
